@@ -107,8 +107,22 @@ func (s spec) String() string {
 }
 
 type pair struct {
-	n   [2]*p2psim.Node
-	dir string
+	n    [2]*p2psim.Node
+	dir  string
+	born time.Time
+}
+
+// KFHeartbeat: Stream.queueSend is called by the heartbeat paths (sendHeartbeat, handleHeartbeatPacket)
+// without Stream.mu, while Stream.cleanup sets closed and closes sendQueue under it: a data race on
+// every teardown of a connection that has sent a heartbeat, and a "send on closed channel" panic in
+// the heartbeat goroutine (which has no recover) when the heartbeat queue is full at teardown.
+const KFHeartbeat = "KF-C18-heartbeat-send-vs-cleanup"
+
+// tooOldToStop: while KFHeartbeat is open, a connection that may already have sent a heartbeat is
+// not torn down inside a race-detector run (it is left running until the process exits), so that
+// the known race is excluded by construction and any other race still fails the check.
+func tooOldToStop(born time.Time) bool {
+	return ev.Open(KFHeartbeat) && time.Since(born) > p2psim.HeartbeatEvery*6/10
 }
 
 func newPair(rt *rapid.T, rec *ev.Rec) *pair {
@@ -119,6 +133,7 @@ func newPair(rt *rapid.T, rec *ev.Rec) *pair {
 	p := &pair{dir: dir}
 	p.n[0], p.n[1] = p2psim.NewNode(dir+"/a", 1, 1), p2psim.NewNode(dir+"/b", 2, 1)
 	for attempt := 0; ; attempt++ {
+		p.born = time.Now()
 		err = p2psim.Join(p.n[0], p.n[1])
 		if err == nil {
 			return p
@@ -261,7 +276,12 @@ func runConcurrent(rt *rapid.T, rec *ev.Rec, small bool) {
 	c := rec.Case()
 	sc := drawScenario(rt, small)
 	p := newPair(rt, rec)
-	defer p.close()
+	stopPair := true
+	defer func() {
+		if stopPair {
+			p.close()
+		}
+	}()
 	m := &matcher{want: map[key]int{}, topicOf: map[[32]byte][]string{}, pubs: [2][]byte{p.n[0].Pub, p.n[1].Pub}}
 	type out struct {
 		spec
@@ -363,6 +383,39 @@ func runConcurrent(rt *rapid.T, rec *ev.Rec, small bool) {
 	c.ClassIf(multi > 0, "multi-packet")
 	c.ClassIf(multi > 1, "multi-packet>=2")
 	if small {
+		// race-detector variant: malformed traffic from a raw peer tears ITS connection down while the
+		// honest connection stays; optionally after the connection has lived through a heartbeat tick
+		if rapid.IntRange(0, 2).Draw(rt, "malformed-teardown") > 0 {
+			linger := rapid.IntRange(0, 4).Draw(rt, "linger") == 0
+			if linger && ev.Open(KFHeartbeat) {
+				rec.Exclude(KFHeartbeat)
+				linger = false
+			}
+			born := time.Now()
+			rp := connectRaw(rt, rec, p.n[0], p2psim.BLSKey(53))
+			c.Desc("raw-peer-malformed(linger=%v)", linger)
+			c.Class("malformed-teardown")
+			c.ClassIf(linger, "teardown-after-heartbeat")
+			if linger {
+				time.Sleep(p2psim.HeartbeatEvery + 150*time.Millisecond)
+			}
+			if tooOldToStop(born) {
+				rec.Exclude(KFHeartbeat + "/slow-case-left-running")
+			} else {
+				_ = rp.SendPacket(1000, true, []byte("unknown stream"))
+				if !p2psim.WaitFor(teardownBudget, func() bool { return !p.n[0].Has(rp.Pub) && rp.Closed() }) {
+					inconclusive(rt, rec, "no teardown after unknown stream id")
+				}
+				rp.Close()
+			}
+			if !p.n[0].Has(p.n[1].Pub) || !p.n[1].Has(p.n[0].Pub) {
+				rt.Fatalf("the honest connection did not survive the teardown of the raw peer's connection")
+			}
+		}
+		if tooOldToStop(p.born) {
+			rec.Exclude(KFHeartbeat + "/slow-case-left-running")
+			stopPair = false
+		}
 		c.Done(len(sc.senders) >= 2 && len(topics) >= 2)
 	} else {
 		c.Done(len(sc.senders) >= 2 && len(topics) >= 2 && multi >= 1)
